@@ -137,6 +137,8 @@ impl Check for C17 {
         let f = &c.f;
         ex.workload_fp = f.fingerprint();
         ex.nontrivial = f.n() >= 1;
+        ex.probe_if(f.n() >= 64 || f.m() >= 64 || f.s.len() >= 64 || f.t.len() >= 64, "size_64_or_more");
+        ex.probe_if(f.n() >= 256 || f.m() >= 256 || f.s.len() >= 256 || f.t.len() >= 256, "size_256_or_more");
         let budget = launch_budget(f);
         let touched = |v: usize| f.s.contains(&v) || f.t.contains(&v) || f.e.iter().any(|e| e.s.contains(&v) || e.t.contains(&v));
         ex.probe_if((0..f.n()).any(|v| !touched(v)), "isolated_node");
